@@ -553,10 +553,10 @@ class FSM:
 
     def wait_for_crew(self):
         def done(*_args, **_kwds):
+            # the waiter is gone whatever happens next
+            self.crew_thread = None
             if self.waiting_on_crew():
                 self.update_trigger()
-                self.crew_thread = None
-                pass
             return
 
         log.info("Waiting for crew to be empty.")
@@ -579,10 +579,10 @@ class FSM:
 
     def wait_for_doing(self):
         def done(*_args, **_kwds):
+            # the waiter is gone whatever happens next
+            self.doing_thread = None
             if self.waiting_on_doing():
                 self.update_trigger()
-                self.doing_thread = None
-                pass
             return
 
         log.info("Waiting for doing to be empty.")
@@ -612,10 +612,10 @@ class FSM:
 
     def wait_for_todo(self):
         def done(*_args, **_kwds):
+            # the waiter is gone whatever happens next
+            self.todo_thread = None
             if self.waiting_on_todo():
                 self.update_trigger()
-                self.todo_thread = None
-                pass
             return
 
         log.info("Waiting for todo, doing, and crew to be empty.")
